@@ -71,6 +71,7 @@ package graphicsstate
 // text-space origin mapped through Tm and then the CTM (stated for zero text rise, as the property is)
 //@ func (*GraphicsState) GetTextPosition results (x, y)
 //@   property C08
+//@   flags pure
 //@   ensures origin: gs.Text.Rise == 0.0 ==> x == mtx(gs.CTM, mtx(gs.Text.TextMatrix, 0.0, 0.0), mty(gs.Text.TextMatrix, 0.0, 0.0)) && y == mty(gs.CTM, mtx(gs.Text.TextMatrix, 0.0, 0.0), mty(gs.Text.TextMatrix, 0.0, 0.0))
 //@   ensures gs == old(gs)
 
@@ -83,3 +84,9 @@ package graphicsstate
 //@   ensures only_the_translation_moves: gs.Text.TextMatrix[0] == old(gs.Text.TextMatrix)[0] && gs.Text.TextMatrix[1] == old(gs.Text.TextMatrix)[1] && gs.Text.TextMatrix[2] == old(gs.Text.TextMatrix)[2] && gs.Text.TextMatrix[3] == old(gs.Text.TextMatrix)[3] && gs.Text.TextMatrix[5] == old(gs.Text.TextMatrix)[5]
 //@   loop 0:
 //@     invariant gs == old(gs)
+
+// ---- C08: the effective font size is the font size scaled by the text matrix (the larger of |a| and |d|) ----
+//@ func (*GraphicsState) GetEffectiveFontSize results (r)
+//@   property C08
+//@   flags pure
+//@   ensures font_size_times_text_matrix_scale: r == gs.Text.FontSize * max(abs(gs.Text.TextMatrix[3]), abs(gs.Text.TextMatrix[0]))
